@@ -46,3 +46,14 @@ Fixpoint list_eqb {A : Type} (eqb : A -> A -> bool) (x y : list A) : bool :=
   | a :: x', b :: y' => eqb a b && list_eqb eqb x' y'
   | _, _ => false
   end.
+
+(** `s.trim_end_matches(c)` and `s.contains(c)` for a single char pattern *)
+Fixpoint trim_end_matches (s : list Z) (c : Z) : list Z :=
+  match s with
+  | [] => []
+  | x :: r => match trim_end_matches r c with
+              | [] => if x =? c then [] else [x]
+              | r' => x :: r'
+              end
+  end.
+Definition containsZ (s : list Z) (c : Z) : bool := existsb (fun x => x =? c) s.
